@@ -66,8 +66,8 @@ theorem versionedVals_is_fold_once (bs : Blocks) (c : Nat) :
     ∃ (ids : List Nat), ids.Nodup ∧
       versionedVals bs c = (ids.filterMap bs.get?).foldl applyDelta {} := by
   unfold versionedVals
-  have := applies_foldl bs (fun acc (b : Block) => vmerge bs 4 acc b.id)
-    (fun acc b => vmerge_applies bs 4 acc b.id)
+  have := applies_foldl bs (fun acc (b : Block) => vmerge bs (bs.length + 1) acc b.id)
+    (fun acc b => vmerge_applies bs (bs.length + 1) acc b.id)
     (sortByHeight ((seekQueue bs c).filterMap bs.get?)) (({} : Vals), ([] : List Nat))
   obtain ⟨ids, applied, _, hs, _, hn, hf⟩ := this
   exact ⟨ids, hn, by rw [hs, hf]⟩
